@@ -361,7 +361,8 @@ fn peephole3_helper(lines: &[Line], index: usize, ret: &mut Vec<Line>) -> bool {
                         Instr::PushFloat(a),
                         Instr::PushFloat(b),
                         Instr::DivFloat(Reg::Top, Reg::Top, Reg::Top),
-                    ) => {
+                    ) if b.parse::<f64>().unwrap() != 0.0 => {
+                        // division by zero is a runtime error, so it is never folded
                         let a = a.parse::<f64>().unwrap();
                         let b = b.parse::<f64>().unwrap();
                         let c = a / b;
